@@ -66,11 +66,21 @@ def _trace_cfg_text():
         return _switch_cfg(f.read())
 
 
-def fixture():
+EOL = {"lf": "\n", "crlf": "\r\n"}
+
+
+def fixture(eol="lf"):
+    """The real documents / archives; one set with \n and one with \r\n line ends (both with multi-byte characters)."""
     global _FX
     if _FX is None:
-        _FX = cf.Fixture(tlc.scratch("c14-fixture"))
-    return _FX
+        _FX = {}
+    if eol not in _FX:
+        _FX[eol] = cf.Fixture(os.path.join(tlc.scratch("c14-fixture"), eol), EOL[eol])
+    return _FX[eol]
+
+
+def fx_of(case):
+    return fixture(case["p"].get("eol", "lf"))
 
 
 # ---------------------------------------------------------------------------------------------------
@@ -140,7 +150,7 @@ def _run_record(p, script, res, crash, events):
 
 def dry_chain(case, sandbox):
     """Chain A: run 1 to its end, then a second run. Returns (item, events of run 1, details)."""
-    fx = fixture()
+    fx = fx_of(case)
     p, init, script = case["p"], case["init"], case["script"]
     d = os.path.join(sandbox, "dir")
     cf.materialize(fx, d, init, p)
@@ -153,7 +163,7 @@ def dry_chain(case, sandbox):
     details = {"runs": [_detail(r1), _detail(r2)]}
     if any(s != 5 for s in r1["sleeps"] + r2["sleeps"]):
         details["sleep"] = "pause between attempts is not 5 s: %r" % (r1["sleeps"] + r2["sleeps"],)
-    item = {"id": case["id"] + "/A", "p": _p(p), "init": init, "runs": [rec1, rec2]}
+    item = {"id": case["id"] + "/A", "p": _p(p), "eol": p.get("eol", "lf"), "init": init, "runs": [rec1, rec2]}
     return item, r1["events"], details
 
 
@@ -190,7 +200,7 @@ def resolve_crash(crash, ev):
 
 def crashed_chain(case, ev, crash, sandbox):
     """Chain B: run 1 crashed at the crash['event']-th observed call, then a second run."""
-    fx = fixture()
+    fx = fx_of(case)
     p, init, script = case["p"], case["init"], case["script"]
     k = crash["event"]
     d = os.path.join(sandbox, "dir")
@@ -205,7 +215,7 @@ def crashed_chain(case, ev, crash, sandbox):
     rest = script[nreq1:]
     r2 = cf.run_once(fx, d, p, rest)
     rec2 = _run_record(p, rest, r2, {"kind": "none", "seg": 0}, r2["events"])
-    item = {"id": "%s/B-%s%d" % (case["id"], crash["kind"], k), "p": _p(p), "init": init, "runs": [recc, rec2]}
+    item = {"id": "%s/B-%s%d" % (case["id"], crash["kind"], k), "p": _p(p), "eol": p.get("eol", "lf"), "init": init, "runs": [recc, rec2]}
     return item, {"runs": [_detail(rc), _detail(r2)]}
 
 
@@ -221,7 +231,6 @@ def _detail(r):
 # case sources
 # ---------------------------------------------------------------------------------------------------
 def cases_from_tlc(ctx, out, num, depth):
-    fx = fixture()
     wd = _prepared("c14sim", "CorpusPrep.sim.cfg")
     simdir = os.path.join(wd, "sim")
     os.makedirs(simdir)
@@ -243,14 +252,13 @@ def cases_from_tlc(ctx, out, num, depth):
         for j, s in enumerate(states):
             if s["act"]["name"] == "Crash":
                 crash = {"kind": s["act"]["arg"], "seg": states[j - 1]["m"]["seg"], "pick": rnd.choice(["first", "mid", "last"])}
-        pp = dict(p, testMode=rnd.random() < 0.5, slash=rnd.random() < 0.5)
-        script = [concretize_outcome(k, rnd, fx, p["fmt"]) for k in kinds]
+        pp = dict(p, testMode=rnd.random() < 0.5, slash=rnd.random() < 0.5, eol="crlf" if rnd.random() < 0.4 else "lf")
+        script = [concretize_outcome(k, rnd, fixture(pp["eol"]), p["fmt"]) for k in kinds]
         cases.append({"id": "sim%d" % n, "src": "tlc-simulate", "p": pp, "init": init, "script": script, "crash": crash})
     return cases
 
 
 def random_cases(seed, n):
-    fx = fixture()
     rnd = random.Random(seed)
     cases = []
     while len(cases) < n:
@@ -265,7 +273,9 @@ def random_cases(seed, n):
             "entry": rnd.choice(["plain", "plain", "plain", "bundled"]),
             "testMode": rnd.random() < 0.5,
             "slash": rnd.random() < 0.5,
+            "eol": "crlf" if rnd.random() < 0.4 else "lf",
         }
+        fx = fixture(p["eol"])
         init = {
             "doc": rnd.choice(["absent", "absent", "full", "empty", "mid", "last", "other"]),
             "arch": rnd.choice(["absent", "absent", "G", "G", "Th", "Te", "J", "E"]),
@@ -323,15 +333,21 @@ DIRECTED = [
     ("killed-table-build-short-body", "none", "none", False, False, {}, ["Th"], {"kind": "kill", "match": {"off": "part", "newer": True}}),
     ("tar-mtime-stale-table", "tar.gz", "none", True, True, {"doc": "other", "arch": "G", "off": "O", "newer": True}, [], None),
     ("retries-exhausted", "none", "none", True, False, {}, ["proto"] * 11, None),
+    # \r\n line ends: the table is built through a text-mode reader (universal newlines), the readers use bytes
+    ("crlf-fresh-download", "gz", "none", True, True, {}, ["G"], None, "crlf"),
+    ("crlf-uncompressed-stale-table", "none", "none", True, False, {"doc": "full", "off": "O", "newer": False}, [], None, "crlf"),
+    ("crlf-zip-killed-midway", "zip", "none", True, True, {"arch": "G"}, [], {"kind": "kill", "match": {"doc": "mid"}}, "crlf"),
 ]
 
 
 def directed_cases():
-    fx = fixture()
     rnd = random.Random(5)
     cases = []
-    for name, fmt, tool, u, c, over, kinds, crash in DIRECTED:
-        p = {"fmt": fmt, "tool": tool, "uDecl": u, "cDecl": c, "net": "online", "cons": True, "entry": "plain", "testMode": not (u or c), "slash": True}
+    for row in DIRECTED:
+        name, fmt, tool, u, c, over, kinds, crash = row[:8]
+        eol = row[8] if len(row) > 8 else "lf"
+        fx = fixture(eol)
+        p = {"fmt": fmt, "tool": tool, "uDecl": u, "cDecl": c, "net": "online", "cons": True, "entry": "plain", "testMode": not (u or c), "slash": True, "eol": eol}
         init = dict({"doc": "absent", "arch": "absent", "tmp": "absent", "off": "absent", "newer": False}, **over)
         cases.append({"id": "dir-" + name, "src": "directed", "p": p, "init": init, "script": [concretize_outcome(k, rnd, fx, fmt) for k in kinds], "crash": crash})
     return cases
@@ -339,12 +355,13 @@ def directed_cases():
 
 def sweep_cases(which, limit=None):
     """Every observed I/O call of canonical cases as crash point, both crash kinds."""
-    fx = fixture()
     cases = []
     rnd = random.Random(77)
     for ci in which:
         fmt, tool, u, c, over, kinds = CANONICAL[ci]
-        p = {"fmt": fmt, "tool": tool, "uDecl": u, "cDecl": c, "net": "online", "cons": True, "entry": "plain", "testMode": False, "slash": True}
+        eol = "crlf" if ci % 3 == 1 else "lf"
+        fx = fixture(eol)
+        p = {"fmt": fmt, "tool": tool, "uDecl": u, "cDecl": c, "net": "online", "cons": True, "entry": "plain", "testMode": False, "slash": True, "eol": eol}
         init = dict({"doc": "absent", "arch": "absent", "tmp": "absent", "off": "absent", "newer": False}, **over)
         script = [concretize_outcome(k, rnd, fx, fmt) for k in kinds]
         cases.append({"id": "sweep%d" % ci, "src": "sweep", "p": p, "init": init, "script": script, "crash": {"sweep": True, "limit": limit}})
@@ -382,6 +399,9 @@ def _signature(clauses, item, run_idx):
         else:
             sig["defect"] = "bad-offset-table-trusted" if not rebuilt else "bad-offset-table-built"
             sig["cause"] = {"torn": "torn-table-newer-than-data", "bad": "unparsable-table-newer-than-data", "O": "table-of-other-content-newer-than-data"}.get(fs["off"], fs["off"])
+            if rebuilt:
+                sig["cause"] = "table-written-by-this-run-mispositions"
+                sig["eol"] = item.get("eol", "lf")
         if not fs["newer"] and not rebuilt and fs["off"] != "absent":
             sig["cause"] = sig.get("cause", "") + "+table-older-than-data"
     return sig
@@ -397,7 +417,7 @@ def run_cases(cases, out, label, sandbox):
         index[item["id"]] = (dict(case, crash=None), det)
         if "sleep" in det:
             out.drift.append("%s: %s" % (case["id"], det["sleep"]))
-        out.add_case({"p": _p(case["p"]), "init": case["init"], "script": case["script"], "crash": None}, nontrivial=True)
+        out.add_case({"p": _p(case["p"]), "eol": case["p"].get("eol", "lf"), "init": case["init"], "script": case["script"], "crash": None}, nontrivial=True)
         crashes = resolve_crash(case.get("crash"), ev)
         if case.get("crash") and not crashes:
             unreal += 1
@@ -405,7 +425,7 @@ def run_cases(cases, out, label, sandbox):
             item, det = crashed_chain(case, ev, cr, sandbox)
             items.append(item)
             index[item["id"]] = (dict(case, crash=cr), det)
-            out.add_case({"p": _p(case["p"]), "init": case["init"], "script": case["script"], "crash": cr}, nontrivial=True)
+            out.add_case({"p": _p(case["p"]), "eol": case["p"].get("eol", "lf"), "init": case["init"], "script": case["script"], "crash": cr}, nontrivial=True)
     if not items:
         raise tlc.MachineryError("no traces produced for %s" % label)
     verdicts = tracecheck.validate("CorpusPrep", "TraceCorpusPrep", "TraceCorpusPrep.cfg", items, name="c14trace", chunk=400, timeout=600, cfg_text=_trace_cfg_text())
@@ -417,6 +437,7 @@ def run_cases(cases, out, label, sandbox):
     for it in items:
         _inc(cov["fmt"], it["p"]["fmt"] + ("" if it["p"]["tool"] == "none" else "+tool-" + it["p"]["tool"]))
         _inc(cov["entry"], it["p"]["entry"])
+        _inc(cov.setdefault("eol", {}), it["eol"])
         for r in it["runs"]:
             _inc(cov["end"], r["end"])
             _inc(cov["crash"], r["crash"]["kind"])
@@ -466,7 +487,7 @@ def run(ctx, out):
         "CorpusPrep.tla (S2C), seeded random cases and crash sweeps over every observed call of canonical cases (C2S only)."
     )
     out.assumptions = [
-        "documents are ndjson with \\n line ends; S3/GCS transports are not exercised (HTTP(S) only, scripted below net._request at the urllib3 pool manager; urllib3's own HTTPResponse streaming and Content-Length enforcement are real)",
+        "documents are ndjson with \\n or \\r\\n line ends (both fixtures contain multi-byte characters; a bare \\r is excluded: the text-mode table builder counts it as a line end, the mmap reader does not); S3/GCS transports are not exercised (HTTP(S) only, scripted below net._request at the urllib3 pool manager; urllib3's own HTTPResponse streaming and Content-Length enforcement are real)",
         "no checksums exist in the track format: a complete local file is taken to be the published one unless its size contradicts a DECLARED size; initial document files of undeclared size are missing or genuine (partial ones of undeclared size are reached through crashed or failed runs); archives of the published size are the published archive",
         "for an uncompressed corpus of undeclared size a complete HTTP exchange whose body is cut inside the last line is indistinguishable from the published file and excluded",
         "torn / unparsable offset tables (cut inside an entry) are INITIAL states only (what a power loss, a full disk or an interrupted copy of the data directory leaves): a killed process cannot produce them, CPython's text layer hands complete print() pieces to the OS, so a killed build leaves a correct prefix of the table (observed: the empty table)",
@@ -523,7 +544,7 @@ def run(ctx, out):
         out.note("%d directed crash points no longer exist in the repaired tree" % unreal)
     out.note("leg C2S: %d chains validated by TLC" % out.traces_validated)
     cov = out.extra["coverage_of_executed_chains"]
-    for dim, need in (("end", ("returned", "raised", "crashed", "declined")), ("crash", ("kill", "intr", "none")), ("exc", ("DataError", "SystemSetupError", "NetError", "LibError"))):
+    for dim, need in (("end", ("returned", "raised", "crashed", "declined")), ("crash", ("kill", "intr", "none")), ("exc", ("DataError", "SystemSetupError", "NetError", "LibError")), ("eol", ("lf", "crlf"))):
         for k in need:
             if not cov[dim].get(k):
                 out.vacuous.append("%s=%s never observed on the real code" % (dim, k))
